@@ -199,6 +199,8 @@ Theorem step_squashed_returned legacy aa fd prev car fo : tmpl_dict fd -> wf_att
          exists l lm,
            node_get (fo_mol fo) (sg (rho (fo_m2 fo) (cf0 (nk n)))) (S "fragid") = Some (VList l) /\ In (VInt (nk mn)) l /\
            node_get (fo_mol fo) (sg (rho (fo_m2 fo) (cf0 (nk n)))) (S "mapping") = Some (VList lm) /\ In (mapping_entry name (nk n)) lm /\
+           l = merged_lists (ShareCutTotal.lists_fn (fo_m2 fo) (S "fragid")) (squash_plan [] (bang_items (fo_m2 fo))) (rho (fo_m2 fo) (cf0 (nk n))) /\
+           lm = merged_lists (ShareCutTotal.lists_fn (fo_m2 fo) (S "mapping")) (squash_plan [] (bang_items (fo_m2 fo))) (rho (fo_m2 fo) (cf0 (nk n))) /\
            (forall v, In v l -> exists p, In p (node_keys (fo_m2 fo)) /\ rho (fo_m2 fo) p = rho (fo_m2 fo) (cf0 (nk n)) /\
                                          node_get (fo_m2 fo) p (S "fragid") = Some (VList [v])) /\
            (rho (fo_m2 fo) (cf0 (nk n)) = cf0 (nk n) -> forall key v, ~ In key written_keys_sq -> aget key (na n) = Some v ->
@@ -269,6 +271,7 @@ Proof.
     split; [apply (SAttr y _ _ Hy Tm); rewrite node_get_nattrs, Nay; exact My|].
     split; [unfold y, rho; apply ShareCutTotal.merged_lists_incl; unfold Ml, ShareCutTotal.lists_fn; rewrite node_get_nattrs in B;
             destruct (nattrs m2 p); [rewrite B; now left|discriminate B]|].
+    split; [reflexivity|]. split; [reflexivity|].
     split.
     + intros v Hv.
       assert (rho m2 y = y) as Ry by (rewrite K3 in Hy; apply filter_In in Hy as [_ Hy]; now apply Z.eqb_eq in Hy).
